@@ -115,6 +115,8 @@ pub struct Model {
     /// out of band: every address ever observed for a (checksum, creator, salt) triple, including in
     /// instantiations that were rolled back afterwards
     pub salted_seen: BTreeMap<(String, String, Vec<u8>), String>,
+    /// address validity as the chain's Api sees it (set only when adversarial addresses are in play)
+    pub addr_validator: Option<Box<dyn Fn(&str) -> bool>>,
     /// (code id, instance count, salted (checksum hex, creator, salt)) -> address, used only when
     /// the address could not be learned because the instantiate entry point never ran
     pub addr_fallback: Option<Box<dyn Fn(u64, u64, Option<(String, String, Vec<u8>)>) -> Option<String>>>,
@@ -208,6 +210,7 @@ impl Model {
             probes: BTreeMap::new(),
             faults: BTreeMap::new(),
             addr_fallback: None,
+            addr_validator: None,
             salted_seen: BTreeMap::new(),
         }
     }
@@ -242,7 +245,10 @@ impl Model {
     }
 
     pub fn valid_addr(&self, a: &str) -> bool {
-        a != INVALID_ADDR && !a.is_empty()
+        match &self.addr_validator {
+            Some(f) => f(a),
+            None => a != INVALID_ADDR && !a.is_empty(),
+        }
     }
 
     /// Records a module call; Err when the fault plan rejects it.
@@ -448,7 +454,20 @@ impl Model {
                     None => {
                         let n = self.s.contracts.len() as u64;
                         let fb = self.addr_fallback.as_ref().and_then(|f| f(*code_id, n, salt_key.clone()));
-                        fb.unwrap_or_else(|| format!("unlearned-address-of-node-{}", node.nid))
+                        if fb.is_none() && salt_key.is_some() && self.addr_fallback.is_some() {
+                            // the salted address cannot even be computed (the creator's address does not
+                            // canonicalize under the chain's Api): the instantiation is rejected
+                            self.fault("creator_not_canonical");
+                            return Err(());
+                        }
+                        let a = fb.unwrap_or_else(|| format!("unlearned-address-of-node-{}", node.nid));
+                        // the entry point never ran: when the generator handed out an address that a contract
+                        // already has, the instantiation was (and had to be) rejected as a duplicate
+                        if self.s.contracts.contains_key(&a) {
+                            self.fault("duplicate_address");
+                            return Err(());
+                        }
+                        a
                     }
                 };
                 if let (Some(key), true) = (&salt_key, self.learned_addr.contains_key(&node.nid)) {
@@ -923,7 +942,8 @@ impl Model {
             return Err(());
         }
         // resolve sub-messages against the state at entry, register reply plans
-        let bank_at_entry = self.s.bank.get(contract).cloned().unwrap_or_default();
+        // (a contract whose own address the Api does not accept cannot even ask for its balance)
+        let bank_at_entry = if self.valid_addr(contract) { self.s.bank.get(contract).cloned().unwrap_or_default() } else { Default::default() };
         let balance = |d: &str| bank_at_entry.get(d).copied().unwrap_or(0);
         let mut subs: Vec<(CMsg, &Sub)> = vec![];
         for s in &node.subs {
